@@ -9,6 +9,8 @@ import (
 	"encoding/binary"
 	"fmt"
 	"io"
+	"os"
+	"strings"
 	"testing"
 	"time"
 	_ "time/tzdata"
@@ -47,7 +49,11 @@ type Case struct {
 	OpenSSL  bool   // also ask the openssl CLI
 	Slow     bool   // the signer answers only after the wall clock has moved on to the next second (HSM / smartcard)
 	Failed   bool   // an update whose signer fails is attempted first (unplugged token), then the real one
+	Env      string // "NAME=value" set in the process environment while the update is made (what build systems and shells export); none of it is an input of a signed update
 }
+
+// what packaging tools, reproducible-build set-ups and shells have in the environment
+var envSettings = []string{"SOURCE_DATE_EPOCH=1136214245", "SOURCE_DATE_EPOCH=0", "TZ=America/New_York", "TZ=:/nonexistent", "LC_ALL=tr_TR.UTF-8", "FAKETIME=2006-01-02 15:04:05"}
 
 type brokenSigner struct{ crypto.Signer }
 
@@ -113,6 +119,17 @@ func genCase(t *rapid.T) Case {
 		c.Payload = esl.Encode(gen.ESLStream(3).Draw(t, "db"))
 	default:
 		c.Payload = gen.SizedBytes(600, 1, 16, 55, 56, 64).Draw(t, "raw")
+	}
+	if rapid.IntRange(0, 7).Draw(t, "payload_is_itself_a_signed_update") == 0 {
+		// a payload that begins with an authentication descriptor of its own (an update that is signed again, a .auth
+		// file handed over as it is): payload bytes like any other
+		var ts [16]byte
+		copy(ts[:], authvar.Time{Year: 2006, Month: 1, Day: 2, Hour: 15, Minute: 4, Second: 5}.Encode())
+		inner := rapid.SampledFrom([][]byte{{0x30, 0x03, 0x02, 0x01, 0x01}, {}, {0x30, 0x82, 0x01, 0x00}}).Draw(t, "inner_signature")
+		c.Payload = append(authvar.EncodeAuth2(ts, authvar.Revision2, authvar.TypeEFIGUID, authvar.PKCS7GUID, inner), c.Payload...)
+	}
+	if rapid.IntRange(0, 7).Draw(t, "environment") == 0 {
+		c.Env = rapid.SampledFrom(envSettings).Draw(t, "setting")
 	}
 	var id gen.Identity
 	if rapid.IntRange(0, 3).Draw(t, "genid") == 0 {
@@ -249,6 +266,18 @@ func checkCase(c Case) error {
 		} else {
 			hx.Class("process_time_zone_with_dst_rules_in_standard_time")
 		}
+	}
+	if k, val, ok := strings.Cut(c.Env, "="); ok {
+		old, had := os.LookupEnv(k)
+		os.Setenv(k, val)
+		defer func() {
+			if had {
+				os.Setenv(k, old)
+			} else {
+				os.Unsetenv(k)
+			}
+		}()
+		hx.Class("environment/" + k)
 	}
 	t0 := time.Now().UTC().Truncate(time.Second)
 	var m efivar.Marshallable = raw(payload)
